@@ -234,6 +234,16 @@ var ruleModeGuard = &Rule{
 					byMode = true
 				}
 			}
+			// built here but raised only through a helper that consults the
+			// flag itself (`return exec.structuralError(fmt.Errorf(…))`)
+			if guard == "" {
+				if ev, ok := s.Instr.(ssa.Value); ok {
+					if h := p.raisedOnlyThroughFlagGuard(ev, ignore); h != nil {
+						guard = "raised only by " + h.Name() + ", which answers `not found` where structural errors are ignored (" + ignore.Name() + ")"
+						byFlagSeen = true
+					}
+				}
+			}
 			byFlag := byFlagSeen
 			if kind := targets[s.Fn]; guard != "" && !byFlag && (kind == "KeyNode" || kind == "ConstAnyKey") {
 				out.viol(key, p.pos(s.Instr.Pos()), fnName(s.Fn), "a member accessor raises its structural error whenever the path is strict, without consulting "+ignore.Name()+": below `.**` member accessors must skip the nodes they do not apply to ("+s.Text+")")
@@ -281,6 +291,71 @@ var ruleModeGuard = &Rule{
 		out.Floors["guarded_structural_errors"] = 2
 		return out
 	},
+}
+
+// raisedOnlyThroughFlagGuard: every use of the error value ev is as an
+// argument of one helper of package exec in which every use of that parameter
+// lies where the structural-error flag is known to be off. Returns the helper.
+func (p *Prog) raisedOnlyThroughFlagGuard(ev ssa.Value, ignore *types.Var) *ssa.Function {
+	var h *ssa.Function
+	refs := ev.Referrers()
+	if refs == nil {
+		return nil
+	}
+	n := 0
+	for _, r := range *refs {
+		switch x := r.(type) {
+		case *ssa.DebugRef:
+		case *ssa.Call:
+			g := x.Call.StaticCallee()
+			if g == nil || x.Call.IsInvoke() || fnPkgPath(g) != pkgExec || g.Blocks == nil || (h != nil && h != g) {
+				return nil
+			}
+			k := -1
+			for i, a := range x.Call.Args {
+				if a == ev {
+					k = i
+				}
+			}
+			if k < 0 || k >= len(g.Params) {
+				return nil
+			}
+			q := g.Params[k]
+			uses := 0
+			for _, qr := range *q.Referrers() {
+				ins, ok := qr.(ssa.Instruction)
+				if !ok || ins.Block() == nil {
+					return nil
+				}
+				if _, dbg := qr.(*ssa.DebugRef); dbg {
+					continue
+				}
+				uses++
+				off := false
+				for _, f := range factsAt(ins.Block()) {
+					if u, ok := f.Cond.(*ssa.UnOp); ok && u.Op == token.MUL && !f.Truth {
+						if fld, _ := p.execFieldOf(u.X); fld == ignore {
+							off = true
+						}
+					}
+				}
+				if !off {
+					return nil
+				}
+			}
+			if uses == 0 {
+				return nil
+			}
+			h = g
+			n++
+		default:
+			return nil
+		}
+	}
+	if n == 0 {
+		return nil
+	}
+	return h
 }
 
 func init() {
